@@ -104,9 +104,22 @@ def run_traced(est, X, y, kwargs, wall):
     orig_batchify = est._batchify
     out = {"events": events, "outcome": None, "result": None, "error": None, "doc_init": None, "doc_init_full": None, "foreign_calls": 0}
 
-    def rec_batchify(*a, **k):
-        trained[0] = True
-        return orig_batchify(*a, **k)
+    class _BatchifyProxy:
+        """Transparent callable: forwards the call and every attribute access (decorations such as the mlcl one keep
+        state on the wrapped function, e.g. `_batchify.indices`)."""
+
+        def __call__(self, *a, **k):
+            trained[0] = True
+            return orig_batchify(*a, **k)
+
+        def __getattr__(self, name):
+            return getattr(orig_batchify, name)
+
+        def __setattr__(self, name, value):
+            setattr(orig_batchify, name, value)
+
+    rec_batchify = _BatchifyProxy()
+    had_inst = "_batchify" in est.__dict__
 
     def rec_cvs(*args, **kwargs):
         ret = orig_cvs(*args, **kwargs)
@@ -162,13 +175,37 @@ def run_traced(est, X, y, kwargs, wall):
         signal.setitimer(signal.ITIMER_REAL, 0)
         signal.signal(signal.SIGALRM, old)
         B.compute_val_score = orig_cvs
-        try:
-            del est._batchify
-        except AttributeError:
-            pass
+        if had_inst:
+            est.__dict__["_batchify"] = orig_batchify       # keep the caller's decoration
+        else:
+            est.__dict__.pop("_batchify", None)
     out["wall"] = time.time() - t0
     out["final_w"] = snap(est) if hasattr(est, "n_features_in_") and events else None
     return out
+
+
+def _freeze(v):
+    import copy
+    if isinstance(v, np.ndarray):
+        return ("nd", v.dtype.str, v.shape, v.tobytes(), v.flags.writeable)
+    return ("py", copy.deepcopy(v))
+
+
+def _same(fz, v):
+    if fz[0] == "nd":
+        return isinstance(v, np.ndarray) and v.dtype.str == fz[1] and v.shape == fz[2] and v.tobytes() == fz[3] and v.flags.writeable == fz[4]
+    return fz[1] == v
+
+
+def freeze_args(X, y, groups, pk):
+    return {"X": _freeze(X), "y": _freeze(y), "groups": _freeze(groups), "kwargs": _freeze(dict(pk))}
+
+
+def args_changed(fz, X, y, groups, pk):
+    for name, v in (("X", X), ("y", y), ("groups", groups), ("kwargs", dict(pk))):
+        if not _same(fz[name], v):
+            return name
+    return None
 
 
 def steps_of(events):
@@ -286,10 +323,34 @@ class NanAfter(G.MMDGEMINI):
 def build(case):
     rng = np.random.default_rng(case["data_seed"])
     X = impl.blobs(rng, case["n"], case["d"], case["k"], case["scale"])
+    q = case.get("quant")
+    if q == "eighth":
+        X = np.round(X * 8) / 8          # exactly representable in float32
+    elif q == "int":
+        X = np.round(X)
+    elif q == "bool":
+        X = (X > np.median(X, axis=0)).astype(float)
+    tw = case.get("twist")
+    if tw == "const-col":
+        X[:, -1] = 1.5
+    elif tw == "dup-rows":
+        X[1::2] = X[::2][:len(X[1::2])]
+    elif tw == "negzero-col":
+        X[:, 0] = -0.0
+    elif tw == "denormal-col":
+        X[:, 0] = 5e-324 * np.arange(len(X))
+    elif tw == "huge":
+        X = X * 1e150                    # X @ X.T overflows
+    elif tw == "ties":
+        X = np.round(X)                  # many exactly equal rows / distances
     name = case["estimator"]
     kw = dict(n_clusters=case["k"], max_iter=case["max_iter"], learning_rate=case["learning_rate"], alpha=case["alpha"],
               batch_size=case["batch_size"], dynamic=case["dynamic"], solver=case["solver"], random_state=case["random_state"])
-    if case.get("groups"):
+    if case.get("groups") == "one":
+        kw["groups"] = [list(range(case["d"]))]
+    elif case.get("groups") == "singletons":
+        kw["groups"] = [[j] for j in range(case["d"])]
+    elif case.get("groups"):
         kw["groups"] = [[0, 1], [2]]
     y = None
     g = case["gemini"]
@@ -314,6 +375,12 @@ def build(case):
     if name in ("SparseMLPModel", "SparseMLPMMD"):
         kw["n_hidden_dim"] = 4
     est = impl.make(name, **kw)
+    if case.get("mlcl"):
+        impl.add_mlcl_constraint(est, case["mlcl"].get("ml") or None, case["mlcl"].get("cl") or None)
+    if case.get("prefit"):
+        with warnings.catch_warnings():
+            warnings.simplefilter("ignore")
+            est.fit(X, y)
     pk = {}
     for key in ("alpha_multiplier", "min_features", "keep_threshold", "early_stopping_factor", "max_patience", "restore_best_weights"):
         if case.get(key, "absent") != "absent":
@@ -337,11 +404,18 @@ def slim(case):
 def check_case(chk, case, stream, sig=None, est_xy=None, expect_same_as=None):
     """Run one traced path(), compare it with the model (L2) and check the contract (L3).  Returns the run."""
     est, X, y, pk = est_xy or build(case)
+    if sig is None and any(case.get(k, "absent") == "absent" for k in ("alpha_multiplier", "min_features", "keep_threshold", "early_stopping_factor", "max_patience")):
+        t = chk.ask("c07.sig")
+        sig = {"mult": t.float(), "minf": t.int(), "keep": t.float(), "esf": t.float(), "patience": t.int()}
     a = model_args(case, sig)
     diverge_expected = a["alpha"] == 0.0 and a["minf"] < a["d"]
     alpha_before = est.alpha
+    arg_copies = freeze_args(X, y, getattr(est, "groups", None), pk)
     run = run_traced(est, X, y, pk, WALL_DIVERGE if diverge_expected else WALL_NORMAL)
     replay = slim(case)
+    changed = args_changed(arg_copies, X, y, getattr(est, "groups", None), pk)
+    if changed:
+        chk.fail("path:argument-mutated:" + changed, f"path() modified its argument `{changed}` in place", replay, layer="L3")
     mode = "dynamic" if (case["dynamic"] and y is None) else "static"
     ev = run["events"]
     init, steps = steps_of(ev)
@@ -622,6 +696,216 @@ def stream_keepwindow(chk, i, rng):
     check_case(chk, case, "keepwindow")
 
 
+# ------------------------------------------------------------------ round-3 streams: representation, boundaries, decorated route
+def representations(A):
+    """(label, object holding exactly the same values as the float64 C-contiguous array A); dtype variants only when
+    the values are representable in that dtype."""
+    out = [("fortran", np.asfortranarray(A)),
+           ("strided-rows", np.repeat(A, 2, axis=0)[::2]),
+           ("reversed-cols-view", np.ascontiguousarray(A[:, ::-1])[:, ::-1]),
+           ("transposed-transpose", np.ascontiguousarray(A.T).T),
+           ("list", A.tolist()), ("tuple", tuple(tuple(r) for r in A.tolist()))]
+    ro = A.copy()
+    ro.setflags(write=False)
+    out.append(("read-only", ro))
+    if np.array_equal(A.astype(np.float32).astype(np.float64), A):
+        out.append(("float32", A.astype(np.float32)))
+    if np.array_equal(np.round(A), A) and np.all(np.abs(A) < 2 ** 30):
+        out += [("int64", A.astype(np.int64)), ("int32", A.astype(np.int32))]
+        if np.all((A == 0) | (A == 1)):
+            out.append(("bool", A.astype(bool)))
+    return out
+
+
+def same_path_result(ref, var, tol=1e-10):
+    """ref/var: runs of run_traced.  Identical histories, best weights and final estimator weights."""
+    if ref["outcome"] != var["outcome"]:
+        return f"outcome {var['outcome']} ({var['error']}) instead of {ref['outcome']}"
+    if ref["outcome"] != "returned":
+        return None
+    (bw, g, p, a, nf), (bw2, g2, p2, a2, nf2) = ref["result"], var["result"]
+    if [int(v) for v in nf] != [int(v) for v in nf2]:
+        return f"n_features {list(nf2)[:8]} instead of {list(nf)[:8]}"
+    for nm, u, v in (("geminis", g, g2), ("penalties", p, p2), ("alphas", a, a2)):
+        u, v = np.asarray(u, float), np.asarray(v, float)
+        if len(u) != len(v):
+            return f"{nm} differ in length"
+        ok = np.isclose(u, v, rtol=tol, atol=tol, equal_nan=True)
+        if nm == "geminis":      # a square-root distance at its zero (constant predictions) only carries rounding noise ~sqrt(1e-16)
+            ok |= (np.abs(u) <= 1e-7) & (np.abs(v) <= 1e-7)
+        if not ok.all():
+            return f"{nm} differ: {u[~ok][:3].tolist()} vs {v[~ok][:3].tolist()}"
+    if any(abs(float(v)) <= 1e-7 for v in list(g) + list(g2)):
+        # a step ended on constant predictions (score = square root of rounding noise): its gradient is 0/0-like, the
+        # weights trained there are ill-conditioned functions of the input; only the discrete outputs and histories are compared
+        return None
+    for nm, U, V in (("best weights", bw, bw2), ("estimator weights", ref["final_w"], var["final_w"])):
+        if len(U) != len(V) or not all(np.allclose(x, z, rtol=tol, atol=tol, equal_nan=True) for x, z in zip(U, V)):
+            return f"{nm} differ"
+    return None
+
+
+def note_once(chk, text):
+    if text not in chk.notes:
+        chk.notes.append(text)
+
+
+def stream_repr(chk, i, rng):
+    """Metamorphic: the same values in another representation (dtype, memory layout, read-only, list/tuple) must give
+    the same path, raise nothing new and leave the caller's objects untouched."""
+    kind = ["eighth", "int", "bool", "eighth"][i % 4]
+    names = impl.SPARSE
+    case = make_case(rng, i, chk.tier, {"estimator": names[i % len(names)], "precomputed": bool(i % 3 == 1), "dynamic": bool(i % 7 == 3)})
+    case.update({"quant": kind, "n": int(rng.integers(10, 19)), "scale": 1.0, "max_iter": int(rng.integers(2, 5)),
+                 "alpha": float(rng.choice([0.5, 1.0])), "alpha_multiplier": float(rng.choice([1.5, 2.0])), "learning_rate": 0.1})
+    est, X, y, pk = build(case)
+    ref = check_case(chk, case, "repr", est_xy=(est, X, y, pk))
+    if ref["outcome"] != "returned":
+        return
+    which_arg = ["X", "y"] if y is not None else ["X"]
+    for arg in which_arg:
+        base = X if arg == "X" else y
+        reps = representations(base)
+        for lbl, obj in [reps[j] for j in rng.permutation(len(reps))[:(4 if chk.tier == "quick" else len(reps))]]:
+            est2, _, _, pk2 = build(case)
+            Xv, yv = (obj, y) if arg == "X" else (X, obj)
+            fz = freeze_args(Xv, yv, getattr(est2, "groups", None), pk2)
+            var = run_traced(est2, Xv, yv, pk2, WALL_NORMAL)
+            chk.dist[f"repr:{arg}:{lbl}"] += 1
+            chk.evaluations += 1
+            replay = dict(slim(case), representation=lbl, argument=arg)
+            changed = args_changed(fz, Xv, yv, getattr(est2, "groups", None), pk2)
+            if changed:
+                chk.fail(f"path:repr:argument-mutated:{changed}", f"path() modified the caller's `{changed}` ({lbl} {arg})", replay, layer="L3")
+            diff = same_path_result(ref, var)
+            if diff is None:
+                continue
+            # observations on the unchanged tree (reported to the coordinator, recorded, not alarms)
+            if lbl == "float32":
+                chk.dist["repr:float32-differs-from-float64"] += 1
+                note_once(chk, "observation: float32 input is not upcast by path(); results differ from the float64 run of the same values "
+                               "(from ~1e-7 relative up to a different path)")
+                continue
+            if arg == "y" and lbl in ("list", "tuple") and var["outcome"] == "TypeError":
+                chk.dist["repr:y-as-list-TypeError"] += 1
+                note_once(chk, "observation: a precomputed affinity given as a list of lists makes path() raise TypeError in compute_val_score "
+                               "(y[j:j+bs][:, j:j+bs]); the docstring asks for an ndarray")
+                continue
+            chk.fail(f"path:repr:{arg}:{lbl}", f"path() on the same values as {lbl} {arg}: {diff}", replay, layer="L3")
+
+
+BOUNDARY_KINDS = ["K=1", "d=1", "d=1-default-minf", "d=2", "n=k", "bs=n", "bs>n", "bs=1", "keep=1", "keep=0", "keep=-0.0", "keep=1+ulp", "keep=-denormal",
+                  "keep=denormal", "mult=1", "mult=1-ulp", "mult=1e300", "minf=d-1", "minf=d", "minf=d+1", "one-group", "singleton-groups",
+                  "alpha=denormal,minf=d", "alpha=1e300", "esf=1e300", "esf=-0.0", "esf=denormal", "esf=1-ulp", "const-col", "dup-rows", "negzero-col",
+                  "denormal-col", "huge", "ties", "prefit", "max_iter=1,patience=1", "keep=ratio-exact"]
+
+
+def stream_boundary(chk, i, rng):
+    """Degenerate sizes, inclusive interval ends and adversarial floats, all through the public path() and the full
+    model/contract comparison."""
+    kind = BOUNDARY_KINDS[i % len(BOUNDARY_KINDS)]
+    est_i = int(rng.integers(0, len(impl.SPARSE)))
+    case = make_case(rng, est_i, chk.tier, {"precomputed": False, "dynamic": False})
+    case.update({"alpha": float(rng.choice([0.5, 1.0, 2.0])), "alpha_multiplier": float(rng.choice([1.5, 2.0])), "learning_rate": 0.1,
+                 "min_features": 1, "groups": False})
+    d, n = case["d"], case["n"]
+    one = 1.0
+    if kind == "K=1":
+        case["k"] = 1
+    elif kind == "d=1":
+        case["d"] = 1
+    elif kind == "d=1-default-minf":
+        case["d"], case["min_features"] = 1, "absent"
+    elif kind == "d=2":
+        case["d"] = 2
+    elif kind == "n=k":
+        case["n"], case["batch_size"] = case["k"], None
+    elif kind == "bs=n":
+        case["batch_size"] = n
+    elif kind == "bs>n":
+        case["batch_size"] = n + int(rng.integers(1, 9))
+    elif kind == "bs=1":
+        case["batch_size"], case["n"] = 1, min(n, 10)
+    elif kind == "keep=1":
+        case["keep_threshold"] = 1.0
+    elif kind == "keep=0":
+        case["keep_threshold"] = 0.0
+    elif kind == "keep=-0.0":
+        case["keep_threshold"] = -0.0
+    elif kind == "keep=1+ulp":
+        case["keep_threshold"] = float(np.nextafter(one, 2.0))
+    elif kind == "keep=-denormal":
+        case["keep_threshold"] = -5e-324
+    elif kind == "keep=denormal":
+        case["keep_threshold"] = 5e-324
+    elif kind == "mult=1":
+        case["alpha_multiplier"], case["alpha"] = 1.0, 2.0
+    elif kind == "mult=1-ulp":
+        case["alpha_multiplier"], case["alpha"] = float(np.nextafter(one, 0.0)), 2.0
+    elif kind == "mult=1e300":
+        case["alpha_multiplier"] = 1e300
+    elif kind == "minf=d-1":
+        case["min_features"] = max(1, d - 1)
+    elif kind == "minf=d":
+        case["min_features"] = d
+    elif kind == "minf=d+1":
+        case["min_features"] = d + 1
+    elif kind == "one-group" and case["estimator"] != "SparseLinearMI":
+        case["groups"] = "one"
+    elif kind == "singleton-groups" and case["estimator"] != "SparseLinearMI":
+        case["groups"] = "singletons"
+    elif kind == "alpha=denormal,minf=d":
+        case["alpha"], case["min_features"] = 5e-324, d
+    elif kind == "alpha=1e300":
+        case["alpha"] = 1e300
+    elif kind == "esf=1e300":
+        case["early_stopping_factor"] = 1e300
+    elif kind == "esf=-0.0":
+        case["early_stopping_factor"] = -0.0
+    elif kind == "esf=denormal":
+        case["early_stopping_factor"] = 5e-324
+    elif kind == "esf=1-ulp":
+        case["early_stopping_factor"] = float(np.nextafter(one, 0.0))
+    elif kind in ("const-col", "dup-rows", "negzero-col", "denormal-col", "huge", "ties"):
+        case["twist"] = kind
+    elif kind == "prefit":
+        case["prefit"] = True
+    elif kind == "max_iter=1,patience=1":
+        case["max_iter"], case["max_patience"] = 1, 1
+    elif kind == "keep=ratio-exact":
+        # keep_threshold = score of a step / reference exactly (tie in the keep test), found by a probe run
+        est, X, y, pk = build(case)
+        probe = run_traced(est, X, y, dict(pk, restore_best_weights=False), WALL_NORMAL)
+        if probe["outcome"] == "returned" and len(probe["result"][1]) > 0 and probe["doc_init"]:
+            g = [float(v) for v in probe["result"][1]]
+            nf = [int(v) for v in probe["result"][4]]
+            best, cands = probe["doc_init"], []
+            for t in range(len(g)):
+                if g[t] >= best and nf[t] == case["d"]:
+                    best = g[t]
+                if best > 0 and 0 <= g[t] / best <= 1:
+                    k = g[t] / best
+                    cands += [k, float(np.nextafter(k, 2.0)), float(np.nextafter(k, -1.0))]
+            cands = [k for k in cands if 0 <= k <= 1]
+            if cands:
+                case["keep_threshold"] = float(cands[int(rng.integers(0, len(cands)))])
+    chk.dist["boundary:" + kind] += 1
+    check_case(chk, case, "boundary")
+
+
+def stream_mlcl(chk, i, rng):
+    """path() has its own copy of the training loop: run it on must-link / cannot-link decorated estimators with every
+    batching regime and with precomputed affinities; same model comparison and contract as the plain route."""
+    case = make_case(rng, i, chk.tier, {"precomputed": bool(i % 4 == 3), "dynamic": False})
+    n = case["n"]
+    case["batch_size"] = [None, n, n + 3, max(2, n // 3)][i % 4]
+    case.update({"alpha": float(rng.choice([0.5, 1.0, 2.0])), "alpha_multiplier": float(rng.choice([1.5, 2.0])), "learning_rate": 0.1, "min_features": 1})
+    idx = [int(v) for v in rng.permutation(n)[:4]]
+    case["mlcl"] = {"ml": [[idx[0], idx[1]]], "cl": [[idx[2], idx[3]]]} if i % 3 else {"ml": [[idx[0], idx[1]]], "cl": []}
+    chk.dist["mlcl:batch=" + ("None" if case["batch_size"] is None else "n" if case["batch_size"] == n else ">n" if case["batch_size"] > n else "<n")] += 1
+    check_case(chk, case, "mlcl")
+
+
 def stream_nan(chk, i, rng):
     if i % 2 == 0:
         case = make_case(rng, i, chk.tier, {"estimator": ["SparseLinearModel", "SparseMLPModel"][(i // 2) % 2], "precomputed": False, "dynamic": False})
@@ -684,6 +968,7 @@ def stream_twice(chk, i, rng):
 
 STREAMS = {"grid": (stream_grid, 130, 2500), "badargs": (stream_badargs, 42, 500), "dynamic": (stream_dynamic, 24, 300),
            "dynzero": (stream_dynzero, 16, 160), "keepwindow": (stream_keepwindow, 24, 300),
+           "repr": (stream_repr, 14, 120), "boundary": (stream_boundary, len(BOUNDARY_KINDS), 8 * len(BOUNDARY_KINDS)), "mlcl": (stream_mlcl, 16, 160),
            "nan": (stream_nan, 20, 200), "alpha0": (stream_alpha0, 6, 30), "patience0": (stream_patience0, 8, 60),
            "defaults": (stream_defaults, 6, 60), "twice": (stream_twice, 5, 50)}
 
